@@ -36,6 +36,7 @@ TNext == \/ Consume(Cur.op = "CreateEntity" /\ CreateEntity(Cur.a1, Cur.a2))
          \/ Consume(Cur.op = "ProcessRemoveFault" /\ ProcessRemoveFault(Cur.a1, Cur.a2))
          \/ Consume(Cur.op = "ProcessRemover" /\ ProcessRemover(Cur.a1, Cur.a2, Cur.a3))
          \/ Consume(Cur.op = "ProcessScheduler" /\ ProcessScheduler(Cur.a1, Cur.a2, Cur.a3))
+         \/ Consume(Cur.op = "RemoveDisabling" /\ RemoveDisabling(Cur.a1, Cur.a2))
          \/ Consume(Cur.op = "AddSelfRemoving" /\ AddSelfRemoving(Cur.a1, Cur.a2))
          \/ Consume(Cur.op = "CreateDisabling" /\ CreateDisabling(Cur.a1, Cur.a2, Cur.a3))
          \/ Consume(Cur.op = "ProcessKiller" /\ ProcessKiller(Cur.a1, Cur.a2, Cur.a3))
